@@ -584,6 +584,10 @@ func (c *Context) onKilled(message *vivid.OnKilled, behavior vivid.Behavior) {
 		handler.prepareSelfKilledMessage()
 		handler.restarting = false
 		handler.cleanupIfNotRestarting()
+		// 僵尸已被释放：此后它就是一个普通的已终止 Actor。否则经由缓存引用再次到达的 Kill / RestartMessage
+		// 会让它再次执行释放流程，向父级与监听者重复通知其终止。
+		c.zombie = false
+		atomic.StoreInt32(&c.state, killed)
 		return
 	}
 
